@@ -35,6 +35,10 @@ Lemma layout_BitVector_ok :
   mklayout layout_BitVector_serialize_header layout_BitVector_serialize_body layout_BitVector_load
            layout_BitVector_load_checks layout_BitVector_size_in_elements = expected_BitVector.
 Proof. reflexivity. Qed.
+Lemma layout_RLVector_ok :
+  mklayout layout_RLVector_serialize_header layout_RLVector_serialize_body layout_RLVector_load
+           layout_RLVector_load_checks layout_RLVector_size_in_elements = expected_RLVector.
+Proof. reflexivity. Qed.
 Lemma layout_V_ok :
   mklayout layout_V_serialize_header layout_V_serialize_body layout_V_load
            layout_V_load_checks layout_V_size_in_elements = expected_V.
@@ -89,6 +93,9 @@ Lemma fields_SelectSupport : fields_consistent expected_SelectSupport ["samples"
 Proof. repeat split. Qed.
 Lemma fields_BitVector :
   fields_consistent expected_BitVector ["ones"; "data"; "rank"; "select"; "select_zero"]%string.
+Proof. repeat split. Qed.
+
+Lemma fields_RLVector : fields_consistent expected_RLVector ["len"; "ones"; "samples"; "data"]%string.
 Proof. repeat split. Qed.
 
 (* ------------------------------------------------------------------ RawVector *)
@@ -258,6 +265,19 @@ Proof.
     apply (prefix_bind_last (option_codec (ss_codec m)) (bv_select_zero b) _ HS W3).
 Qed.
 
+(* ------------------------------------------------------------------ RLVector *)
+
+(* by composition: four fields, then the loader's check and the rebuilt indexes ([c_wf] asks that the loader
+   rebuilds the record itself; Proofs/SerRL.v shows that every vector built by RLVector::from meets it) *)
+Lemma rl_codec_ok m : codec_ok (rl_codec m).
+Proof.
+  apply conv_codec_ok. apply seq_codec_ok; [exact usize_codec_ok|].
+  apply seq_codec_ok; [exact usize_codec_ok|]. apply seq_codec_ok; exact (iv_codec_ok m).
+Qed.
+
+Lemma rl_size m v : c_size (rl_codec m) v = 10 + lenN (rdata (idata (RL.rl_samples v))) + lenN (rdata (idata (RL.rl_data v))).
+Proof. cbn. lia. Qed.
+
 (* ------------------------------------------------------------------ every type of the universe *)
 
 Theorem codec_of_ok m t : codec_ok (codec_of m t).
@@ -276,6 +296,7 @@ Proof.
   - exact rs_codec_ok.
   - exact (ss_codec_ok m).
   - exact (bv_codec_ok m).
+  - exact (rl_codec_ok m).
 Qed.
 
 (* ------------------------------------------------------------------ size_by_params *)
@@ -337,7 +358,15 @@ Proof.
   reflexivity.
 Qed.
 
+(* RLVector: the byte-level encoder is the little-endian image of the element list of Model/RL.v (rl_serialize) *)
+Lemma rl_enc_elems m v : c_enc (rl_codec m) v = flat_map le64 (RL.rl_serialize v).
+Proof.
+  unfold RL.rl_serialize. rewrite !flat_le64_app. cbn [flat_map app]. rewrite app_nil_r.
+  rewrite <- !iv_enc_elems with (m := m). reflexivity.
+Qed.
+
 (* ------------------------------------------------------------------ HOW TO ADD A COMPOSITE TYPE (by composition)
+   (RLVector above - rl_codec, rl_codec_ok - is a worked instance: conv_codec over seq_codec of its four fields)
 
    Record sparse := mksparse { sv_len : N; sv_high : bitvec; sv_low : intvec }.
    (* the loader's checks and rebuilding, in the order of the Rust; every failed check is IoErr InvalidData *)
